@@ -168,6 +168,16 @@ class ExecBase:
         self.assume_valid(st, v)
         return v
 
+    def deref_dictlike(self, st, v):
+        """A reference to an object the class model declares dict-like (`CLASSES[cls].dict_field = "<field>"`: a plain
+        dict shared by reference, e.g. the {tp: offset} dict a pending transactional offset commit carries) stands for
+        the dict held in that field: subscripts, `in`, `del`, truth value and len() go through it, writes land in the
+        heap and are therefore seen through every other reference to the same object."""
+        ty = v.ty
+        if isinstance(ty, Ref) and ty.cls in C.CLASSES and getattr(C.CLASSES[ty.cls], "dict_field", None):
+            return self.hread(st, v.t, ty.cls, C.CLASSES[ty.cls].dict_field)
+        return v
+
     def hwrite(self, st, ref_t, cls, fld, v, ty=None, check_frame=True):
         ty = ty or self.field_ty(cls, fld)
         cv = self.coerce_to(st, v, ty, fld)
@@ -326,6 +336,7 @@ class ExecBase:
 
     # ------------------------------------------------------------- truthiness
     def truthy(self, st, v):
+        v = self.deref_dictlike(st, v)
         ty = v.ty
         if ty == BOOL:
             return v.t
